@@ -41,9 +41,35 @@ def impl():
     return _impl
 
 
+class Hang(Exception):
+    """A call into the implementation used more than CALL_LIMIT seconds of CPU time without returning (CPU time of this
+    process, not wall time: a loaded machine must not look like a loop; raised from a signal handler, so the traceback ends
+    in the implementation's loop). It escapes the suite and is reported by `check` as a failure of the
+    property under check, located at the innermost implementation frame."""
+
+
+CALL_LIMIT = float(os.environ.get("VERIF_CALL_LIMIT", "120"))
+
+
+def _on_alarm(signum, frame):
+    raise Hang(f"the call used {CALL_LIMIT:.0f} s of CPU time without returning (non-terminating loop?)")
+
+
 def quiet(f, *a, **k):
-    with contextlib.redirect_stdout(io.StringIO()), contextlib.redirect_stderr(io.StringIO()):
-        return f(*a, **k)
+    """run one call into the implementation with its chatter swallowed and a watchdog (main thread only)"""
+    import signal
+    import threading
+    arm = threading.current_thread() is threading.main_thread() and signal.getitimer(signal.ITIMER_VIRTUAL)[0] == 0
+    if arm:
+        old = signal.signal(signal.SIGVTALRM, _on_alarm)
+        signal.setitimer(signal.ITIMER_VIRTUAL, CALL_LIMIT)
+    try:
+        with contextlib.redirect_stdout(io.StringIO()), contextlib.redirect_stderr(io.StringIO()):
+            return f(*a, **k)
+    finally:
+        if arm:
+            signal.setitimer(signal.ITIMER_VIRTUAL, 0)
+            signal.signal(signal.SIGVTALRM, old)
 
 
 class Violation(Exception):
